@@ -146,12 +146,18 @@ LinFail(t) == /\ LinOK /\ HasTop(t) /\ Top(t).wf /\ ~Top(t).fok /\ ~Top(t).done
 
 \* a call that raised has no effect at all (C13); it needs no linearization point, but a reason (blocking clause
 \* P_C13_CallOutcomeMatchesMap)
+\* A start() that fails because an emitter cannot be started (injected) has ONE effect: that emitter is discarded, its
+\* watch keeps its handlers but has no emitter any more (the observer is not started and start() may be tried again).
+FailedStartW == IF Tr[l].op = "start" /\ Get(Tr[l], "exc", "") = "OSError" THEN Get(Tr[l], "fw", 0) ELSE 0
 RetFail == /\ Line("ret") /\ ~Tr[l].ok /\ Consume
            /\ HasTop(Me) /\ Top(Me).op = Tr[l].op /\ ~Top(Me).done
            /\ \/ Top(Me).fok
               \/ (Top(Me).op \in {"schedule", "start"} /\ Get(Tr[l], "exc", "") = "OSError")
            /\ pend' = [pend EXCEPT ![Me] = SubSeq(@, 1, Len(@) - 1)]
-           /\ UNCHANGED <<reg, sched, emOf, started, stopCalled, stopRet, qp, Q, cur, banned, deadEm, viol>>
+           /\ sched' = sched \ {FailedStartW}
+           /\ emOf' = Restrict(emOf, DOMAIN emOf \ {FailedStartW})
+           /\ deadEm' = deadEm \cup (IF FailedStartW \in DOMAIN emOf THEN {emOf[FailedStartW]} ELSE {})
+           /\ UNCHANGED <<reg, started, stopCalled, stopRet, qp, Q, cur, banned, viol>>
 
 \* successful return: C05 bans take effect here
 RetOk == /\ Line("ret") /\ Tr[l].ok /\ Consume
@@ -227,6 +233,7 @@ Quiescent == /\ Line("quiescent") /\ Consume
 ----------------------------------------------------------------------------
 \* C13: black-box view of the registry at a quiet moment (no call in flight)
 SetOf(s) == {s[i] : i \in 1..Len(s)}
+PartialStartBefore == \E j \in 1..(l - 1) : Tr[j].e = "ret" /\ Tr[j].op = "start" /\ ~Tr[j].ok /\ Get(Tr[j], "exc", "") = "OSError"
 Probe == /\ Line("probe") /\ Consume
          /\ \A t \in AllThreads : pend[t] = << >>
          /\ LET ems == SetOf(Tr[l].emitters)            \* sequence of [w, alive]
@@ -234,7 +241,10 @@ Probe == /\ Line("probe") /\ Consume
             IN viol' = viol
                  \cup (IF {x.w : x \in ems} # sched THEN {"P_C13_EmittersAreScheduledWatches"} ELSE {})
                  \cup (IF Len(Tr[l].emitters) # Cardinality({x.w : x \in ems}) THEN {"P_C13_OneEmitterPerWatch"} ELSE {})
-                 \cup (IF \E x \in ems : x.alive # Running THEN {"P_C13_EmitterAliveIffRunning"} ELSE {})
+                 \* (after a start() that failed part-way the emitters started before the failing one run without an observer
+                 \* thread until start() is retried: only "running => alive" and "stopped => not alive" are demanded then)
+                 \cup (IF \E x \in ems : IF PartialStartBefore THEN (Running /\ ~x.alive) \/ (stopCalled /\ x.alive) ELSE x.alive # Running
+                       THEN {"P_C13_EmitterAliveIffRunning"} ELSE {})
                  \cup (IF \E i \in 1..Len(rts) : SetOf(rts[i].hs) # (IF rts[i].w \in DOMAIN reg THEN reg[rts[i].w] ELSE {})
                        THEN {"P_C13_RoutesEqualMap"} ELSE {})
          /\ UNCHANGED <<reg, sched, emOf, started, stopCalled, stopRet, pend, qp, Q, cur, banned, deadEm>>
